@@ -243,10 +243,55 @@ def worker_init(lane):
     sym.bind_all()
 
 
-def analyze(atoms, want=("conv", "sets", "sets_params", "chiral", "prim", "labels"), reuse_first=None, first_getter=None):
+def _quartz():
+    from ase.spacegroup import crystal
+    return crystal(["Si", "O"], [(0.4697, 0, 0), (0.4135, 0.2669, 0.1191)], spacegroup=152, cellpar=[4.916, 4.916, 5.405, 90, 90, 120])
+
+
+def _exercise(an):
+    try:
+        an.get_material_id(); an.get_wyckoff_sets_conventional(True); an.get_primitive_system()
+        an.get_wyckoff_letters_original(); an.get_is_chiral(); an.get_has_free_wyckoff_parameters()
+    except Exception:
+        pass
+
+
+def derived_input(atoms, kind):
+    """The target structure as an object DERIVED from an already analysed Atoms object of a different crystal of the
+    family (its inversion image, or the same sites with the species exchanged): copy() and in-place edits keep
+    whatever an earlier analysis attached to the object (info, arrays).  Bit-identical to `atoms` in positions, cell,
+    numbers and pbc."""
+    import matid
+    m = atoms.copy()
+    if kind == "inversion":
+        m.set_positions(-atoms.get_positions())
+    else:
+        zs = sorted(set(int(z) for z in atoms.get_atomic_numbers()))
+        repl = {z: cg.SPECIES[(cg.SPECIES.index(z) + 5) % len(cg.SPECIES)] if z in cg.SPECIES else z + 1 for z in zs}
+        if len(set(repl.values())) != len(zs):
+            repl = {z: z + 1 for z in zs}
+        m.set_atomic_numbers([repl[int(z)] for z in atoms.get_atomic_numbers()])
+    with core.suspend():
+        _exercise(matid.SymmetryAnalyzer(m, symmetry_tol=TOL))
+    t = m.copy()
+    t.set_positions(atoms.get_positions())
+    t.set_atomic_numbers(atoms.get_atomic_numbers())
+    return t
+
+
+def analyze(atoms, want=("conv", "sets", "sets_params", "chiral", "prim", "labels"), reuse_first=None, first_getter=None,
+            interleave_with=None):
     """Calls the real getters (monitors fire in situ).  Returns (observations dict, exceptions dict)."""
     import matid
-    if reuse_first is not None:
+    other = None
+    if interleave_with is not None:
+        # history: two analyzers alive at once - the target's analyzer is constructed first, then another crystal's
+        # analyzer is constructed AND fully queried, and only then the target's getters are called
+        an = matid.SymmetryAnalyzer(atoms, symmetry_tol=TOL)
+        other = matid.SymmetryAnalyzer(interleave_with, symmetry_tol=TOL)
+        with core.suspend():
+            _exercise(other)
+    elif reuse_first is not None:
         # history: the analyzer object analysed ANOTHER crystal before (all getters called, caches filled) and is then
         # pointed at the target with set_system(); every postcondition must hold as for a fresh analyzer
         an = matid.SymmetryAnalyzer(reuse_first, symmetry_tol=TOL)
@@ -320,21 +365,31 @@ def run_crystal_case(case, want, exception_monitor, exception_key_prefix):
         out["info"] = out_info
         out["data"] = {"generator_discards": discards}
         return out, None, None, None
-    reuse_first = None
+    reuse_first = interleave_with = None
     hr = np.random.default_rng([case["seed"], case["pres"], 4242])
-    if hr.random() < 0.3:
+    h = hr.random()
+    history = "reuse" if h < 0.2 else "interleaved" if h < 0.4 else "derived" if h < 0.55 else "fresh"
+    if history in ("reuse", "interleaved"):
         from ase.build import bulk
-        reuse_first = [bulk("Si", "diamond", a=5.43), bulk("NaCl", "rocksalt", a=5.64, cubic=True), bulk("Mg", "hcp", a=3.21, c=5.21),
-                       bulk("ZnS", "wurtzite", a=3.82, c=6.26)][int(hr.integers(4))]
+        oth = [bulk("Si", "diamond", a=5.43), bulk("NaCl", "rocksalt", a=5.64, cubic=True), bulk("Mg", "hcp", a=3.21, c=5.21),
+               bulk("ZnS", "wurtzite", a=3.82, c=6.26), _quartz()][int(hr.integers(5))]
+        reuse_first, interleave_with = (oth, None) if history == "reuse" else (None, oth)
+    target = atoms
+    if history == "derived":
+        try:
+            target = derived_input(atoms, "inversion" if hr.random() < 0.6 else "species")
+        except Exception:
+            target, history = atoms, "fresh"
     core.set_recorder(rec)
     try:
         first_getter = None
         if hr.random() < 0.5:
             first_getter = ["letters_original", "has_free", "primitive", "letters_primitive", "equivalent_conventional",
                             "sets_with_parameters", "chiral"][int(hr.integers(7))]
-        obs, errs, an = analyze(atoms, want, reuse_first=reuse_first, first_getter=first_getter)
+        obs, errs, an = analyze(target, want, reuse_first=reuse_first, first_getter=first_getter, interleave_with=interleave_with)
         if reuse_first is not None:
             rec.note("analyzer_reused_via_set_system")
+        rec.note("analyzer_history_%s" % history)
     finally:
         core.set_recorder(None)
     for gname, msg in errs.items():
@@ -350,7 +405,7 @@ def run_crystal_case(case, want, exception_monitor, exception_key_prefix):
                                "presentation": "as_generated" if case["pres"] == 0 else
                                ("supercell" if pinfo.get("det", 1) > 1 else "basis_change/rigid_motion"),
                                "sohncke": case["group_no"] in sym.sohncke_groups(),
-                               "lattice": meta.get("lattice_mode", "generic")}}
+                               "lattice": meta.get("lattice_mode", "generic"), "history": history}}
     out["data"] = {"obs": obs, "generator_discards": discards if case["pres"] == 0 else {}}
     out["sample"] = {"group": case["group_no"], "natoms": len(atoms), "orbits": meta["orbit_kinds"], "symbols": meta["symbols"],
                      "cellpar": meta["cellpar"], "presentation": pinfo,
